@@ -57,6 +57,9 @@ def run(chk):
     n = 100 if chk.tier == "quick" else 2500
     r = chk.rng("cases")
     cases = pipefam.load_corpus("C07") + [gen.gen_pair(r, max_chrom=3, max_genes=5, max_tes=35) for _ in range(n)]
+    # one order of thousands of elements made of two superfamilies of about half that size each: whatever a pass does to a group
+    # beyond some size, it then does to the order and not to its superfamilies
+    cases += [gen.gen_large_group(r, sz, supers=("Gypsy", "Copia")) for sz in ([2300] if chk.tier == "quick" else [1100, 2300, 4200])]
     results = c01.evaluate(chk, cases, tag="c07")
     nv, diff_only = 0, []
     for c, rep, pf, diffs in results:
